@@ -147,7 +147,7 @@ class C15(Engine):
             variants = [
                 {"kind": 0, "fill": 0, "seed": 1},
                 {"kind": 0, "fill": rng.range(1, 3), "seed": rng.u64()},
-                {"kind": 1, "fill": rng.below(4), "seed": rng.u64(), "hist_steps": rng.below(50), "hist": self.history(rng, code).hex(),
+                {"kind": 1, "fill": rng.below(4), "seed": rng.u64(), "hist_steps": rng.below(50), "hist": self.history(rng, code, cpu).hex(),
                  # the unrelated history may end with a free run that the user interrupted with Ctrl-C
                  "hist_sigint": rng.pick([1, 2, 5]) if (rng.chance(1, 3) and cpu not in ("riscv", "mips", "ebpf")) else 0},
             ]
@@ -161,10 +161,17 @@ class C15(Engine):
         return {"cases": cases}
 
     @staticmethod
-    def history(rng, code):
+    def history(rng, code, cpu=None):
         """Program executed on the same simulator object before the case: random bytes, or
         siblings of the case's own instruction (same leading bytes, other trailing bytes), which is
         what a decode cache or a latched prefix would confuse with it."""
+        enc = progs.corpus().get(cpu) if cpu else None
+        if enc and rng.chance(1, 3):
+            # a stream of real instructions (what sets latches, modes and counters that random bytes rarely reach)
+            out = bytearray()
+            while len(out) < 64:
+                out += bytes.fromhex(rng.pick(enc)[1])
+            return bytes(out[:64])
         if rng.chance(1, 2):
             return rng.bytes(64)
         out = bytearray()
